@@ -133,13 +133,49 @@ func c17monoh(steps []c17step) {
 }
 
 // ---- (gfx ty W H #data tw th | png direct cimg) ----
+// PNG bytes returned by earlier calls are kept (with a private copy) and compared again after later calls
+// (seed C17-9: the returned slice shares memory with a pooled buffer that the next call overwrites); when
+// they have changed, the EARLIER case is emitted once more with what those bytes decode to now
+type c17keptPng struct {
+	head         []Sx
+	direct, cimg Sx
+	b, copy      []byte
+}
+
+var c17pngs []*c17keptPng
+
+func c17decodePng(b []byte) Sx {
+	img, derr := png.Decode(bytes.NewReader(b))
+	if derr != nil {
+		return L(Sym("pngerr"), len(b))
+	}
+	return c17pix(img)
+}
+
 func c17gfx(ty, W, H int, data []byte, tw, th int) {
 	g := &rwp.HWCGfx{ImageType: rwp.HWCGfx_ImageTypeE(ty), W: uint32(W), H: uint32(H), ImageData: append([]byte{}, data...)}
+	var kept *c17keptPng
+	defer func() {
+		for _, k := range c17pngs {
+			if !bytes.Equal(k.b, k.copy) {
+				emit(append(append([]Sx{}, k.head...), c17guard(func() Sx { return c17decodePng(k.b) }), k.direct, k.cimg))
+				c17count("gfx", "earlier-png-altered")
+				k.copy = append([]byte{}, k.b...)
+			}
+		}
+		if kept != nil {
+			c17pngs = append(c17pngs, kept)
+			if len(c17pngs) > 3 {
+				c17pngs = c17pngs[1:]
+			}
+		}
+	}()
 	pngObs := c17guard(func() Sx {
 		b, err := helpers.ConvertGfxStateToPngBytes(&rwp.HWCState{HWCGfx: g})
 		if err != nil {
 			return L(Sym("err"))
 		}
+		kept = &c17keptPng{b: b, copy: append([]byte{}, b...)}
 		img, derr := png.Decode(bytes.NewReader(b))
 		if derr != nil {
 			return L(Sym("pngerr"), len(b))
@@ -156,6 +192,9 @@ func c17gfx(ty, W, H int, data []byte, tw, th int) {
 		}
 		return L(Sym("none"))
 	})
+	if kept != nil {
+		kept.head, kept.direct, kept.cimg = L(Sym("gfx"), ty, W, H, data, tw, th), direct, cimg
+	}
 	emit(L(Sym("gfx"), ty, W, H, data, tw, th, pngObs, direct, cimg))
 }
 
